@@ -112,7 +112,9 @@ def run(module, cfg, workers=16, cwd=None, env=None, dump=None, dump_dot=None,
         cfg = os.path.join(os.path.dirname(root), cfg)
     meta = scratch_dir("tlcmeta")
     lib = os.pathsep.join(SPEC_DIRS + ([cwd] if cwd else []))
-    cmd = ["java", "-XX:+UseParallelGC", "-Xmx" + heap, "-Xss32m", "-DTLA-Library=" + lib]
+    # (java.io.tmpdir: TLC leaves a `tlc-<n>` directory per run in the temp dir; keep it inside the scratch directory
+    # that is removed at exit instead of piling up in /tmp)
+    cmd = ["java", "-XX:+UseParallelGC", "-Xmx" + heap, "-Xss32m", "-Djava.io.tmpdir=" + meta, "-DTLA-Library=" + lib]
     if dfs:
         cmd.append("-Dtlc2.tool.queue.IStateQueue=StateDeque")
     cmd += list(jvm)
